@@ -53,7 +53,7 @@ struct UpHarness : HarnessBase {
 		if(res) res->outcomes.insert(std::string(ref[0].on ? "on" : "off") + "/" + (ref[1].on ? "on" : "off"));
 	}
 	void final_check() { for(int a = 0; a < 2; a++) if(alive[a]) { s(a).~U(); alive[a] = false; } raise_pending(); world_check_empty("unique_ptr"); }
-	void canon(std::string &out) { world_canon(out); for(int a = 0; a < 2; a++) out += std::string(ref[a].on ? "E" : "n") + std::to_string(ref[a].v) + ","; }
+	void canon(std::string &out) { world_canon(out); GraphCanon g; for(int a = 0; a < 2; a++) if(alive[a]) g.root(store[a], sizeof(U)); g.emit(out); for(int a = 0; a < 2; a++) out += std::string(ref[a].on ? "E" : "n") + std::to_string(ref[a].v) + ","; }
 };
 
 struct UmHarness : HarnessBase {
@@ -98,7 +98,7 @@ struct UmHarness : HarnessBase {
 		if(res) res->outcomes.insert(std::to_string(ref[0]) + "/" + std::to_string(ref[1]));
 	}
 	void final_check() { for(int a = 0; a < 2; a++) if(alive[a]) { s(a).~U(); alive[a] = false; } raise_pending(); world_check_empty("unique_memory"); }
-	void canon(std::string &out) { world_canon(out); for(int a = 0; a < 2; a++) out += std::to_string(on[a]) + ":" + std::to_string(ref[a]) + ","; }
+	void canon(std::string &out) { world_canon(out); GraphCanon g; for(int a = 0; a < 2; a++) if(alive[a]) g.root(store[a], sizeof(U)); g.emit(out); for(int a = 0; a < 2; a++) out += std::to_string(on[a]) + ":" + std::to_string(ref[a]) + ","; }
 };
 
 // construct / construct_n / destruct / destruct_n
